@@ -259,6 +259,10 @@ def universe():
          S([0], t64(12, 'M')), S([0], 12), {'a': t64(1, 'Y')}, {'a': 12},
          # datetime64 / timedelta64 arrays (C14-F7) next to int arrays holding what astype(object) makes of an M8[ns] cell, and to object arrays
          A('Mns', (1,), D(2020, 1, 1)), A('Mus', (1,), D(2020, 1, 1)), A('MD', (1,), D(2020, 1, 1)), A('Ms', (1,), D(2020, 1, 1)), A('i', (1,), NS2020),
+         # the SAME integer payload under different units (seeded C14-u1: a memo of converted cells keyed without the unit): days 1, 2
+         # since 1970 / seconds 1, 2 since 1970 / 24 days / 24 microseconds
+         A('MD', (2,), D(1970, 1, 2), D(1970, 1, 3)), A('Ms', (2,), D(1970, 1, 1, 0, 0, 1), D(1970, 1, 1, 0, 0, 2)), A('Mus', (2,), datetime.datetime(1970, 1, 1, 0, 0, 0, 1), datetime.datetime(1970, 1, 1, 0, 0, 0, 2)),
+         A('mD', (1,), TD(days=24)), A('mus', (1,), TD(microseconds=24)),
          A('o', (1,), D(2020, 1, 1)), A('o', (1,), datetime.date(2020, 1, 1)), A('o', (1,), ts), A('o', (1,), d64('2020-01-01')),
          A('Mns', (2,), D(2020, 1, 1), pd.NaT), A('Mus', (2,), D(2020, 1, 1), pd.NaT), A('Mns', (2,), D(2020, 1, 1), D(2020, 1, 2)), A('Mns', (1, 2), D(2020, 1, 1), pd.NaT),
          A('mns', (1,), TD(days=1)), A('mD', (1,), TD(days=1)), A('mus', (2,), TD(days=1), pd.NaT), A('i', (1,), DAY_NS), A('o', (1,), TD(days=1)),
